@@ -44,6 +44,9 @@ def run(chk):
                 chk.sample({"zone": rid, "site": f"{s['body'].path} line {s['line']} {s['kind']}", "discharge": s["why"]})
         from .sites import run_sites
         run_sites(chk, facts, "C20-f", cfg)
+        if cfg == "union":
+            from .sites import run_engine_fixture
+            run_engine_fixture(chk)
     from .c04 import check_readers
     check_readers(chk, "C20-c")
     chk.notes.append("C20-c: the generated marker range functions compute `start + len` (1147 additions); read()/marker agreement plus the "
